@@ -339,3 +339,52 @@ def h6_aoi(ctx):
     dot = d[0] * n[0] + d[1] * n[1] + d[2] * n[2]
     ctx.oblige('cos_aoi', ctx.eq(ctx.cos(ctx.val(aoi)), ctx.abs(dot)))
     ctx.observe('cos', ctx.cos(ctx.val(aoi)))
+
+
+@harness('C17', 'H7_matrix_accumulation', funcs=FUNCS, cases=lambda tier: [dict()],
+         bounds='one ray, three fixed rational unit directions (2,-3,6)/7 -> (3,6,2)/7 -> (6,2,-3)/7 whose planes of incidence differ (a skew path), '
+                'two surface interactions with arbitrary (symbolic, real) Jones matrices',
+         doc='the polarization matrix of a ray after two surfaces is P_2 P_1 (the later surface acts on the field that left the earlier one): '
+             'PolarizedRays.update accumulates on the left')
+def h7_accumulation(ctx):
+    from optiland.rays import PolarizedRays
+
+    def dirs(v):
+        return [np.float64(c) / 7 for c in v]
+    k = [dirs((2, -3, 6)), dirs((3, 6, 2)), dirs((6, 2, -3))]
+
+    def jones(tag):
+        a, b, c, d = (ctx.real(f'{tag}{q}', lo=-2.0, hi=2.0) for q in 'abcd')
+        if ctx.sym:
+            from symopt.facade import oarr
+            m = np.empty((1, 3, 3), dtype=object)
+            vals = [[a, b, 0.0], [c, d, 0.0], [0.0, 0.0, 1.0]]
+            for i in range(3):
+                for j in range(3):
+                    m[0, i, j] = ctx.const(vals[i][j]) if isinstance(vals[i][j], float) else vals[i][j]
+            return oarr(m)
+        return np.array([[[a, b, 0.0], [c, d, 0.0], [0.0, 0.0, 1.0]]], dtype=float)
+
+    def fresh(kin):
+        return PolarizedRays(ctx.arr(0.0), ctx.arr(0.0), ctx.arr(0.0), ctx.arr(kin[0]), ctx.arr(kin[1]), ctx.arr(kin[2]), ctx.arr(1.0), ctx.arr(0.55))
+
+    def step(rays, kin, kout, J):
+        rays.L0, rays.M0, rays.N0 = ctx.arr(kin[0]), ctx.arr(kin[1]), ctx.arr(kin[2])
+        rays.L, rays.M, rays.N = ctx.arr(kout[0]), ctx.arr(kout[1]), ctx.arr(kout[2])
+        rays.update(J)
+    J1, J2 = jones('p'), jones('q')
+    r = fresh(k[0])
+    step(r, k[0], k[1], J1)
+    P1 = [[ctx.val(r.p[0, i, j]) for j in range(3)] for i in range(3)]
+    step(r, k[1], k[2], J2)
+    P21 = [[ctx.val(r.p[0, i, j]) for j in range(3)] for i in range(3)]
+    r2 = fresh(k[1])
+    step(r2, k[1], k[2], J2)
+    P2 = [[ctx.val(r2.p[0, i, j]) for j in range(3)] for i in range(3)]
+    for i in range(3):
+        for j in range(3):
+            want = P2[i][0] * P1[0][j] + P2[i][1] * P1[1][j] + P2[i][2] * P1[2][j]
+            ctx.oblige(f'accumulated_{i}{j}', ctx.eq(P21[i][j], want))
+    # the two surface matrices do not commute on this path (otherwise the order could not be observed)
+    comm = P2[0][0] * P1[0][1] + P2[0][1] * P1[1][1] + P2[0][2] * P1[2][1] - (P1[0][0] * P2[0][1] + P1[0][1] * P2[1][1] + P1[0][2] * P2[2][1])
+    ctx.observe('commutator_01', comm)
